@@ -258,6 +258,22 @@ pub fn apply_edits(text: &str, eds: &[Edit]) -> String {
 
 /// Every listed class of structural error, applied to a valid program. Each returned input
 /// must be rejected with a diagnostic.
+/// one structurally invalid input (a single-fault mutation of a valid program), or a valid program with a
+/// stray `~` at its end / in front of a comma - inputs for histories of expansions (C20)
+pub fn faulty() -> impl Strategy<Value = String> {
+    (valid_prog(), any::<u16>()).prop_map(|(p, k)| {
+        let base = p.render();
+        match k % 4 {
+            0 => format!("{} ~", base),
+            1 if base.contains(", ") => base.replacen(", ", " ~ , ", 1),
+            _ => {
+                let f = faults(&p);
+                f[(k as usize / 4) % f.len()].1.clone()
+            }
+        }
+    })
+}
+
 pub fn faults(p: &SProg) -> Vec<(&'static str, String)> {
     let mut out: Vec<(&'static str, String)> = Vec::new();
     let base = p.render();
